@@ -394,3 +394,48 @@ func T6(rc *RC) {
 		rc.S.Ok("T6", "transposeIndex~TransposeIndex", poss[0], strings.ReplaceAll(forms[0], "\n", " "))
 	}
 }
+
+// TMask: the physical transpose moves the mask together with the data: denseTranspose calls
+// transposeMask before dispatching on the element width (in whichever build is loaded).
+func TMask(rc *RC) {
+	rc.S.Declare("TMask", "mask travels with data: denseTranspose calls transposeMask before the per-width data movement", 1)
+	fi := anchor(rc, "TMask", "tensor.(StdEng).denseTranspose")
+	if fi == nil {
+		return
+	}
+	pos := rc.P.Pos(fi.Decl.Pos())
+	_, tree := sCanon(rc, fi)
+	paths, ok := ir.EnumPaths(tree, 128)
+	if !ok {
+		rc.S.Undec("TMask", "tensor.(StdEng).denseTranspose", pos, "too many paths")
+		return
+	}
+	var bad []string
+	n := 0
+	for _, p := range paths {
+		moved, masked := -1, -1
+		for i, st := range p.Steps {
+			if strings.Contains(st.Head, "$r.transposeMask(") && masked < 0 {
+				masked = i
+			}
+			if strings.Contains(st.Head, "$r.denseTranspose") && !strings.Contains(st.Head, "String") && moved < 0 {
+				moved = i
+			}
+		}
+		if moved < 0 {
+			continue
+		}
+		n++
+		if masked < 0 || masked > moved {
+			bad = append(bad, "data is moved without (or before) transposeMask on path "+p.String())
+		}
+	}
+	if n == 0 {
+		bad = append(bad, "no data-moving path found")
+	}
+	if len(bad) > 0 {
+		rc.S.Viol("TMask", "tensor.(StdEng).denseTranspose", pos, strings.Join(bad, "; ")).Sig = fmt.Sprint(len(bad)) + " paths"
+	} else {
+		rc.S.Ok("TMask", "tensor.(StdEng).denseTranspose", pos, fmt.Sprintf("%d data-moving paths, all after transposeMask", n))
+	}
+}
